@@ -7,6 +7,7 @@ import (
 	"strings"
 
 	"verif/harness/core"
+	"verif/harness/gen"
 )
 
 // The C10 table.
@@ -341,7 +342,7 @@ func init() {
 		Rule: "exhaustive table of 193536 cells: patch-side import form {absent, unnamed, named n, named other, named like the last path element, metavariable-named, '.', '_'} x file-side form {no imports, other paths only, unnamed, same name, other name, named like the last path element, '.', '_', " +
 			"same path twice under two names (both orders), unnamed+named, path spelled as a raw string literal (unnamed / named), the path with a '/v2' suffix (another path)} x second guard import {none, holds, fails, the first path again under another literal name} x import block shape {single, grouped, two blocks} x package clause {none, matching, non-matching, rename of matching, rename of non-matching, non-matching and spelled like a metavariable of the change} " +
 			"x guard line prefix {context, '-'} x kind of the code pattern {expression, expression replaced by several statements, statement, declaration} x package of the file {pk, pk_test, pk2 = the name a renaming patch gives it}; when the change applies the package clause must be the file's own (or the renamed one); every cell on a file in which the code pattern occurs; library API for all cells, CLI for every 8th batch. Oracle: the change applies iff every guard holds per the statement's table. " +
-			"Every cell is non-trivial and distinct (one configuration each).",
+			"Every cell is non-trivial and distinct (one configuration each). Side probes: guard orders, rename-then-guard, one parsed patch over all file forms, and cgo files (import \"C\" inside the group of the guarded import, before or behind it, or in a declaration of its own; guards unnamed, named, and import \"C\" itself).",
 		Assumptions: []string{"'in the stated form' for a path imported twice: the guard holds if any of the specs has the stated form", "a file without imports cannot hold a second guard: such cells expect 'not applied'"},
 		Cases:       func(string) int { return (c10Cells() + c10Batch - 1) / c10Batch },
 		Floor:       func(string) int { return c10Cells() - 5000 },
@@ -434,6 +435,9 @@ func runC10(ctx *core.Ctx, idx int) *core.Result {
 	}
 	if idx%40 == 2 {
 		c10RenameThenGuard(ctx, idx, res)
+	}
+	if idx%40 == 3 {
+		c10CgoProbe(res)
 	}
 	return res
 }
@@ -638,4 +642,75 @@ func c10RenameThenGuard(ctx *core.Ctx, idx int, res *core.Result) {
 		}
 	}
 	res.Sig("rename-then-guard", filePkg, hasFirst, guardNew)
+}
+
+// c10CgoProbe: files of a cgo package. The import "C" (with its preamble comment) stands in the same parenthesised declaration
+// as the guarded import (before or behind it) or in a declaration of its own (before or behind the others); the guard is an
+// unnamed one, a literally named one, or import "C" itself. The change applies iff the file imports the path in the stated form,
+// wherever "C" stands (S285: guards matched against the import declarations minus the one that holds "C").
+func c10CgoProbe(res *core.Result) {
+	const cspec = "// #include <stdlib.h>\n\t\"C\""
+	guards := []struct{ guard, holds, fails, use string }{
+		{"import \"example.com/ga\"", "\"example.com/ga\"", "nm \"example.com/ga\"", "Use()"},
+		{"import nm \"example.com/ga\"", "nm \"example.com/ga\"", "\"example.com/ga\"", "Use()"},
+		{"import \"C\"", "\"example.com/ga\"", "", "Use()"},
+	}
+	for gi, g := range guards {
+		for _, layout := range []string{"group-C-last", "group-C-first", "own-decl-first", "own-decl-last", "no-C"} {
+			for _, holds := range []bool{true, false} {
+				spec := g.holds
+				if !holds {
+					spec = g.fails
+				}
+				exp := holds
+				if gi == 2 {
+					// the guard is import "C": it holds iff the file imports "C"
+					spec = g.holds
+					exp = layout != "no-C"
+					if !holds {
+						continue
+					}
+				}
+				name := "ga"
+				if strings.HasPrefix(spec, "nm ") {
+					name = "nm"
+				}
+				var imp string
+				switch layout {
+				case "group-C-last":
+					imp = "import (\n\t\"os\"\n\t" + spec + "\n\n\t" + cspec + "\n)\n"
+				case "group-C-first":
+					imp = "import (\n\t" + cspec + "\n\n\t\"os\"\n\t" + spec + "\n)\n"
+				case "own-decl-first":
+					imp = "// #include <stdlib.h>\nimport \"C\"\n\nimport (\n\t\"os\"\n\t" + spec + "\n)\n"
+				case "own-decl-last":
+					imp = "import (\n\t\"os\"\n\t" + spec + "\n)\n\n// #include <stdlib.h>\nimport \"C\"\n"
+				case "no-C":
+					imp = "import (\n\t\"os\"\n\t" + spec + "\n)\n"
+				}
+				src := "package pk\n\n" + imp + "\nfunc f() {\n\tuse(os.Args)\n\t" + name + "." + g.use + "\n\ttarget(1)\n"
+				if layout != "no-C" {
+					src += "\tC.free(nil)\n"
+				}
+				src += "}\n"
+				if !gen.Parses(src) {
+					continue
+				}
+				pt := "@@\nvar x expression\n@@\n " + g.guard + "\n\n-target(x)\n+repl(x)\n"
+				runs := applyAPI(pt, []string{src})
+				res.Evals++
+				res.Ob("cgo-probe-runs", 1)
+				rep := replayFiles(pt, src, runs[0].Out)
+				if runs[0].Pan != "" || runs[0].Err != "" {
+					res.Violate("C10/cgo-probe-failed", runs[0].Pan+runs[0].Err, rep)
+					return
+				}
+				applied := strings.Contains(runs[0].Out, "repl(1)")
+				if applied != exp || (!exp && runs[0].Out != src) {
+					res.Violate("C10/guard-on-cgo-file", fmt.Sprintf("guard %q, file imports %s, layout %s: expected applies=%v, applied=%v", g.guard, spec, layout, exp, applied), rep)
+					return
+				}
+			}
+		}
+	}
 }
